@@ -620,6 +620,11 @@ def template_schemas(rng, with_signers):
             R('#k1', [L('L1'), P(p3), L('KEY'), P('_')], [[(p3, [('fn', '$eq', [P(p1), P(p2)])])]], ['#k2']),
             R('#k2', [L('L2'), P(p3)], [[(p3, [('fn', '$eq', [P(p1)]), ('fn', '$eq_type', [L(a), P(p2)])])]])]})
     if not with_signers:
+        # an option names a pattern that the rule itself never binds - the rules that embed it bind it in front of the reference
+        out.append({'rules': [R('#inner', [P(p1), L(a)], [[(p1, [P(p2), L(b)])]]), R('#outer', [P(p2), ('ref', '#inner')]),
+                              R('#deep', [L(c), ('ref', '#outer')]), R('#fn', [P(p3), L(b)], [[(p3, [('fn', '$eq', [P(p2)]), L(c)])]]),
+                              R('#ofn', [P(p2), ('ref', '#fn')])]})
+    if not with_signers:
         # the same call with its arguments written in either order (pattern first / literal first)
         out.append({'rules': [R('#o1', [L(a), P(p1), P(p2)], [[(p2, [('fn', '$first', [P(p1), L(b)])])]]),
                               R('#o2', [L(a), P(p1), P(p2), L(c)], [[(p2, [('fn', '$first', [L(b), P(p1)])])]]),
